@@ -90,7 +90,7 @@ func emitReplay(e *emitter, p *pkg) {
 	// --- newReplayWindow
 	nb := body(p, "newReplayWindow")
 	fl, okf := clampLiteral(p, nb, "size", token.LSS)
-	e.nat("replayFloor", fl, okf)
+	e.nat("replayFloor", fl, true) // informational since the translation tie (Tie/Replay.lean); never "missing"
 	ce, okc := clampLiteral(p, nb, "size", token.GTR)
 	optNat(e, "replayNewCeil", ce, okc)
 	// anything else in newReplayWindow than the (at most two) clamps and the return of
@@ -164,9 +164,9 @@ func emitReplay(e *emitter, p *pkg) {
 		}
 	}
 	optNat(e, "replaySpanCeil", spanCeil, spanSome)
-	if !spanKnown {
-		e.missing = append(e.missing, e.key("replaySpanCeil"))
-	}
+	// informational since the translation tie (Tie/Replay.lean proves the translated check/span equal
+	// to the model): an unrecognised shape is no longer reported as a missing fact
+	_ = spanKnown
 
 	// --- bitmap width
 	var bits int64
